@@ -120,6 +120,26 @@ def gen_scc(rng, tier):
             edges.append((u, v))
         # parallel edges allowed
         cases.append(scc_case("sccR%d" % i, keys, edges, rng, 3))
+    # large graphs: long cycles, chains of components, sparse random graphs on 80-200 nodes
+    for i in range(60 if tier == "thorough" else 6):
+        n = rng.randint(80, 200)
+        keys = rng.sample(range(1, 5000), n)
+        shape = i % 3
+        if shape == 0:
+            edges = [(rng.randrange(n), rng.randrange(n)) for _ in range(rng.randint(n, 2 * n))]
+        elif shape == 1:
+            # rings of random length chained by forward edges
+            edges, start = [], 0
+            while start < n:
+                ln = min(rng.randint(1, 25), n - start)
+                edges += [(start + j, start + (j + 1) % ln) for j in range(ln)]
+                if start:
+                    edges.append((rng.randrange(start), start + rng.randrange(ln)))
+                start += ln
+        else:
+            edges = [(u, u + 1) for u in range(n - 1)] + [(rng.randrange(n), rng.randrange(n)) for _ in range(8)]
+        rng.shuffle(edges)
+        cases.append(scc_case("sccL%d" % i, keys, edges, rng, 2))
     return cases
 
 
@@ -256,6 +276,33 @@ def gen_container(cls, rng, tier):
                 steps.append("%s %d" % (rng.choice(qs), g))
         steps.append("snap")
         cases.append(Case("kr%s%d" % (cls, ci), cls, steps, dict(kind="random-container-history")))
+    # large containers (100-300 members): views and lookups after many inserts / removes
+    for ci in range(30 if tier == "thorough" else 4):
+        n = rng.randint(100, 300)
+        ks = rng.sample(range(1, 100000), n)
+        steps = ["new %d %d" % (k, rng.randint(-3, 3)) for k in ks] + [rng.choice(GNEW)]
+        steps += ["gins 0 %d" % u for u in rng.sample(range(n), n - rng.randint(0, 20))]
+        for j in range(rng.randint(n, 3 * n)):
+            steps.append("con %d %d %d" % (rng.randrange(n), rng.randrange(n), rng.randint(0, 40)))
+        for j in range(rng.randint(20, 60)):
+            r = rng.random()
+            u = rng.randrange(n)
+            k = ks[rng.randrange(n)]
+            if r < 0.3:
+                steps.append("grem 0 %d" % k)
+            elif r < 0.5:
+                steps.append("gins 0 %d" % u)
+            elif r < 0.6:
+                steps.append("iso %d" % u)
+            elif r < 0.7:
+                steps.append("dis %d %d" % (u, k))
+            elif r < 0.85:
+                steps.append(rng.choice(["gget", "ghas", "gidx"]) + " 0 %d" % k)
+            else:
+                qs = ["glen", "gvec", "giter", "gorph", "gdot"] + (["groots", "gleaves"] if cls == "D" else [])
+                steps.append("%s 0" % rng.choice(qs))
+        steps += ["glen 0", "gorph 0", "gvec 0"]
+        cases.append(Case("kL%s%d" % (cls, ci), cls, steps, dict(kind="large-container-history")))
     # twins: several live node objects share a key (rejected duplicates, members replaced after remove while the old
     # object is still linked); connect / try_connect / disconnect / lookups between all of them, then the views
     for ci in range(1500 if tier == "thorough" else 120):
@@ -482,6 +529,21 @@ def gen_roundtrip(cls, rng, tier):
         for fmt in ("json", "cbor"):
             steps += ["gser 0 %s" % fmt, "grt 0 %s" % fmt]
         cases.append(Case("rtR%s%d" % (cls, i), cls, steps, dict(kind="random-graph-roundtrip", nodes=g.n, edges=len(g.edges))))
+    # large graphs (hundreds of nodes, up to ~1500 edges)
+    for i in range(40 if tier == "thorough" else 4):
+        g = sc.random_graph(cls, rng, maxn=40, maxe=120)
+        n = rng.randint(150, 400)
+        keys = rng.sample(range(1, 100000), n)
+        vals = [rng.randint(-10 ** 9, 10 ** 9) for _ in range(n)]
+        edges = [(rng.randrange(n), rng.randrange(n), rng.randint(0, 10 ** 6)) for _ in range(rng.randint(n, 4 * n))]
+        g = sc.G(cls, keys, vals, edges)
+        steps = g.steps() + ["snap", "gnew"]
+        order = list(range(n))
+        rng.shuffle(order)
+        steps += ["gins 0 %d" % u for u in order]
+        for fmt in ("json", "cbor"):
+            steps += ["gser 0 %s" % fmt, "grt 0 %s" % fmt]
+        cases.append(Case("rtL%s%d" % (cls, i), cls, steps, dict(kind="large-graph-roundtrip", nodes=n, edges=len(edges))))
     # graphs with a history: parallel edges made from both ends, self-loops, then disconnect / isolate / refused try_connect /
     # reconnect, and only then the round trip (decided against the implementation's own snapshot taken just before)
     for i in range(2000 if tier == "thorough" else 150):
